@@ -1,6 +1,7 @@
 package main
 
 import (
+	"os/exec"
 	"sort"
 	"context"
 	"errors"
@@ -615,6 +616,66 @@ func (r *Rig) LocksSettled() []string {
 
 // BreakDrive makes OS-level opens of the drive fail until RestoreDrive.
 func (r *Rig) BreakDrive() error { return os.Rename(tapeDir(r.Dir), tapeDir(r.Dir)+".away") }
+
+var errBreakUnsupported = errors.New("this way of breaking the drive is not available here")
+
+// BreakDriveMode makes the operating system itself refuse the drive for the duration of a call:
+//   - "isdir": the drive path is a directory (open for writing: EISDIR, reads: EISDIR)
+//   - "immutable": the drive is write-protected for everybody incl. root (immutable attribute: open for writing EPERM, reads work)
+func (r *Rig) BreakDriveMode(mode string) (restore func() error, err error) {
+	away := r.Drive + ".away"
+	switch mode {
+	case "isdir":
+		if err := os.Rename(r.Drive, away); err != nil {
+			return nil, err
+		}
+		if err := os.Mkdir(r.Drive, 0o777); err != nil {
+			return nil, err
+		}
+		return func() error {
+			_ = os.RemoveAll(r.Drive)
+			return os.Rename(away, r.Drive)
+		}, nil
+	case "immutable":
+		tmp, err := os.MkdirTemp("", "verif-wp")
+		if err != nil {
+			return nil, errBreakUnsupported
+		}
+		target := filepath.Join(tmp, "drive.tar")
+		if err := copyFile(r.Drive, target); err != nil {
+			_ = os.RemoveAll(tmp)
+			return nil, err
+		}
+		if out, err := exec.Command("chattr", "+i", target).CombinedOutput(); err != nil {
+			_ = os.RemoveAll(tmp)
+			_ = out
+			return nil, errBreakUnsupported
+		}
+		undo := func() error {
+			_ = exec.Command("chattr", "-i", target).Run()
+			_ = os.Remove(r.Drive)
+			err := os.Rename(away, r.Drive)
+			_ = os.RemoveAll(tmp)
+			return err
+		}
+		if err := os.Rename(r.Drive, away); err != nil {
+			_ = exec.Command("chattr", "-i", target).Run()
+			_ = os.RemoveAll(tmp)
+			return nil, err
+		}
+		if err := os.Symlink(target, r.Drive); err != nil {
+			_ = undo()
+			return nil, err
+		}
+		if f, err := os.OpenFile(r.Drive, os.O_WRONLY|os.O_APPEND, 0); err == nil {
+			_ = f.Close()
+			_ = undo()
+			return nil, errBreakUnsupported // the attribute does not stop this process
+		}
+		return undo, nil
+	}
+	return nil, errBreakUnsupported
+}
 func (r *Rig) RestoreDrive() error {
 	return os.Rename(tapeDir(r.Dir)+".away", tapeDir(r.Dir))
 }
